@@ -8,8 +8,10 @@
    keeper.go ActExternalRewardsLockers / ActExternalRewardsVaults (122-223); abci.go BeginBlocker.
    Definitions only.  Times are whole seconds.  The farmed values (lpSupplies), the child-pool
    contributions, the amount TransferFundsForSwapFeeDistribution hands over, and the locker / vault
-   populations enter as recorded environment values.  DistributeExtRewardLend (230-314) with AddLendExternalRewards.  Not modelled: stable-mint external
-   programs, ESM / circuit-breaker early returns of the external distributions. *)
+   populations and the kill switch of the programs' apps enter as recorded environment values.
+   DistributeExtRewardLend (230-314) with AddLendExternalRewards.  abci.go as repaired by b2d3331
+   (each distribution in its own ApplyFuncIfNoError); gauge.go / iter.go as repaired by
+   fixes/C19-F2 and fixes/C19-F3.  Not modelled: stable-mint external programs. *)
 From Comdex Require Import Lib.Base Lib.DecArith Lib.F64.
 
 (* ---------------- SplitTotalAmountPerEpoch (uint64 arguments) ---------------- *)
@@ -98,8 +100,9 @@ Definition trigger (now : Z) (calc : Z -> outcome pays) (bal : Z) (g : gauge) : 
 
 (* the swap-fee branch: distribute what was accumulated at the previous epoch, then fetch this
    epoch's fees.  [recv]: what TransferFundsForSwapFeeDistribution returns (the coins are credited
-   to the module account by that call).  When the transfer fails AFTER a successful distribution
-   the loop continues WITHOUT SetGauge: the sends stay, the record keeps its old DepositAmount. *)
+   to the module account by that call).  When the transfer fails after a successful distribution
+   the gauge is stored with the distribution booked (DepositAmount reduced, DistributedAmount
+   raised, TriggeredCount unchanged) and the loop continues (fix C19-F2: SetGauge before continue). *)
 Definition trigger_swap (calc : Z -> outcome pays) (recv : outcome Z) (bal : Z) (g : gauge) : outcome (gauge * Z * pays) :=
   let dist := if 0 <? g_deposit g then distribute calc (g_deposit g) bal else Ok (Some (0, bal, [])) in
   match dist with
@@ -108,7 +111,7 @@ Definition trigger_swap (calc : Z -> outcome pays) (recv : outcome Z) (bal : Z) 
   | Ok (Some (tot, bal', paid)) =>
     match recv with
     | Panic => Panic
-    | Err _ => Ok (g, bal', paid)
+    | Err _ => Ok (mkGauge (g_deposit g - tot) (g_distributed g + tot) (g_triggered g) (g_total g) (g_active g) (g_start g) (g_dur g) (g_swap g) (g_denom g), bal', paid)
     | Ok r => Ok (g_swap_paid g tot r, bal' + r, paid)
     end
   end.
@@ -205,18 +208,23 @@ Record ext := mkExt { x_kind : Z; x_denom : Z; x_avail : Z; x_active : bool; x_d
                       x_next : Z; x_minlock : Z }.
 (* population: the lockers of the (app, asset) lookup / the vaults of the (app, extended pair)
    mapping as (owner, NetBalance / AmountOut, CreatedAt) and the lookup's DepositedAmount /
-   TokenMintedAmount *)
-Record xenv := mkXenv { xe_total : Z; xe_pop : list (Z * Z * Z) }.
+   TokenMintedAmount;
+   and xe_halt: the kill switch (BreakerEnable) or the ESM status of the program's app is on *)
+Record xenv := mkXenvH { xe_total : Z; xe_pop : list (Z * Z * Z); xe_halt : bool }.
+Definition mkXenv (total : Z) (pop : list (Z * Z * Z)) : xenv := mkXenvH total pop false.
 Definition DAY : Z := 86400.
 
-(* finalDailyRewards of one locker / vault.  Int64() panics out of range, Quo panics on zero. *)
+(* finalDailyRewards of one locker / vault (fix C19-F3: the owner's balance is multiplied into the
+   epoch rewards BEFORE dividing by the recorded total -
+   epochRewards.MulInt64(net).QuoInt64(total) / .QuoInt(total), then TruncateInt - instead of
+   rounding the share net/total to 18 decimals first).  Int64() panics out of range, QuoInt panics
+   on zero. *)
 Definition ext_final (kind avail dleft total net : Z) : outcome Z :=
   match int64_c net, (if kind =? 0 then int64_c total else Some total), int64_c avail with
   | Some n, Some t, Some a =>
       if t =? 0 then Panic else
-      let share := dquo (dec_of_int n) (dec_of_int t) in
       let er := dquo (dec_of_int a) (dec_of_int dleft) in
-      Ok (dtrunc_int (dmul share er))
+      Ok (dtrunc_int (dquo_int (dmul_int er n) t))
   | _, _, _ => Panic
   end.
 
@@ -251,20 +259,13 @@ Definition ext_tick (now : Z) (e : xenv) (bal : Z) (x : ext) : outcome (ext * Z 
     end
   else Ok (mkExt (x_kind x) (x_denom x) (x_avail x) false (x_days x) (x_count x) (x_next x) (x_minlock x), bal, []).
 
-(* known-finding class C19-F3: a program books more than it has left (the rounded shares add up
-   to more than one and the product is truncated only afterwards) *)
-Definition kf_C19_3 (now : Z) (e : xenv) (x : ext) : bool :=
-  match ext_tick now e 0 x with
-  | Ok (x', _, _) => x_avail x' <? 0
-  | _ => false
-  end.
-
 (* ---------------- lend external reward programs (kind 2): DistributeExtRewardLend ---------------- *)
 (* environment of one program: le_ok = the asset statistics of (pool, asset) were found (otherwise the
    whole function returns); le_new = (lend owner, min(farmed master-pool value, borrowed value)) of the
    borrow positions it walks, as Decs; le_price = (Twa, Decimals) of the reward asset when the asset
-   and its price are found *)
-Record lenv := mkLenv { le_ok : bool; le_new : list (Z * Z); le_price : option (Z * Z) }.
+   and its price are found; le_halt = the kill switch of the program's app is on *)
+Record lenv := mkLenvH { le_ok : bool; le_new : list (Z * Z); le_price : option (Z * Z); le_halt : bool }.
+Definition mkLenv (ok : bool) (new : list (Z * Z)) (price : option (Z * Z)) : lenv := mkLenvH ok new price false.
 
 (* the loop over ALL borrowers collected so far (the slices are declared outside the loop over the
    programs and never reset): finalDailyRewardsPerUser = amount_i.Mul(totalAPR), truncated *)
@@ -312,13 +313,13 @@ Definition kf_C19_4 (now : Z) (e : lenv) (arr : list (Z * Z)) (tot : Z) (x : ext
   | _ => false
   end.
 
-(* a sufficient condition for a program step to stay out of class C19-F3: non-negative balances
-   that add up to at most the recorded total (what the locker / vault books guarantee), and
-   4 * owners * available <= 10^18 *)
+(* well-formed population of a locker / vault program: the owners' balances are not negative and add
+   up to at most the recorded total (the locker lookup's DepositedAmount is the sum of the lockers'
+   NetBalance, the vault mapping's TokenMintedAmount the sum of the vaults' AmountOut: what the
+   locker / vault books guarantee) *)
 Definition pop_net (pop : list (Z * Z * Z)) : Z := zsum (map (fun u => snd (fst u)) pop).
-Definition ext_safe (e : xenv) (x : ext) : bool :=
-  (0 <=? x_avail x) && forallb (fun u => 0 <=? snd (fst u)) (xe_pop e) && (0 <? xe_total e) &&
-  (pop_net (xe_pop e) <=? xe_total e) && (4 * zlen (xe_pop e) * x_avail x <=? P18) && (4 * zlen (xe_pop e) <=? P18).
+Definition xenv_wf (e : xenv) : bool :=
+  forallb (fun u => 0 <=? snd (fst u)) (xe_pop e) && (pop_net (xe_pop e) <=? xe_total e).
 
 (* ---------------- the rewards module: gauges, epochs, programs, one custody account ----------- *)
 Definition bank := Z -> Z.                        (* denom -> balance of the rewards module account *)
@@ -377,12 +378,16 @@ Fixpoint run_epochs (now : Z) (es : list epoch) (gs : list gauge) (fe : list far
       end
   end.
 
-(* DistributeExtRewardLocker (kind 0) / DistributeExtRewardVault (kind 1): the programs of one kind *)
+(* DistributeExtRewardLocker (kind 0) / DistributeExtRewardVault (kind 1): the programs of one kind in
+   id order.  At the top of the loop body, for EVERY program of the kind (active or not): when the
+   kill switch or the ESM status of its app is on the function returns an error - after the programs
+   before it have been paid; the caller's ApplyFuncIfNoError then drops the whole step. *)
 Fixpoint run_exts (kind now : Z) (xs : list ext) (xe : list xenv) (b : bank) : outcome (list ext * bank * dpays) :=
   match xs with
   | [] => Ok ([], b, [])
   | x :: rest =>
       if x_kind x =? kind then
+        if xe_halt (hd_xenv xe) then Err 2 else        (* return ErrCircuitBreakerEnabled / ErrESMAlreadyExecuted *)
         match ext_tick now (hd_xenv xe) (b (x_denom x)) x with
         | Panic => Panic | Err c => Err c
         | Ok (x', bal', paid) =>
@@ -404,6 +409,7 @@ Fixpoint run_lends (now : Z) (xs : list ext) (le : list lenv) (arr : list (Z * Z
   | [] => Ok ([], b, [])
   | x :: rest =>
       if x_kind x =? 2 then
+        if le_halt (hd_lenv le) then Err 2 else        (* return ErrCircuitBreakerEnabled *)
         match lend_tick now (hd_lenv le) arr tot (b (x_denom x)) x with
         | Panic => Panic | Err c => Err c
         | Ok None => Ok (xs, b, [])
@@ -419,23 +425,42 @@ Fixpoint run_lends (now : Z) (xs : list ext) (le : list lenv) (arr : list (Z * Z
            end
   end.
 
-(* rewards.BeginBlocker (stable-mint programs absent) *)
+(* rewards.BeginBlocker (stable-mint programs absent), abci.go after fix b2d3331.  ONE outer
+   ApplyFuncIfNoError around everything; inside it, in this order:
+     1. k.TriggerAndUpdateEpochInfos(ctx)          - directly on the outer cache context
+     2. ApplyFuncIfNoError(DistributeExtRewardLocker)   - own cache context
+     3. ApplyFuncIfNoError(DistributeExtRewardVault)    - own cache context
+     4. ApplyFuncIfNoError(DistributeExtRewardLend)     - own cache context
+     (5. CombinePSMUserPositions, 6. DistributeExtRewardStableVault: own cache contexts, not modelled)
+   and the outer closure returns nil.  So: a panic in step 1 (the gauges) is recovered by the OUTER
+   wrapper and nothing at all is written, steps 2-4 do not run.  An error or panic in one of the
+   steps 2-4 is recovered by that step's own wrapper: the writes and coin movements of THAT step are
+   dropped as a whole, the epoch bookkeeping and gauge payouts of step 1 and the writes of the other
+   steps stay, and the steps after it still run on the state the failed step started from. *)
+Definition sub_step {A : Type} (r : outcome (A * bank * dpays)) (xs : A) (b : bank) : A * bank * dpays :=
+  match r with Ok v => v | _ => (xs, b, []) end.
+
 Definition begin_block (now : Z) (e : benv) (s : rstate) : outcome (rstate * dpays) :=
   match run_epochs now (r_epochs s) (r_gauges s) (be_farm e) (be_recv e) (r_bal s) with
   | Panic => Panic | Err c => Err c
   | Ok (es, gs, b1, p1) =>
-    match run_exts 0 now (r_exts s) (be_ext e) b1 with
-    | Panic => Panic | Err c => Err c
-    | Ok (xs1, b2, p2) =>
-      match run_exts 1 now xs1 (be_ext e) b2 with
-      | Panic => Panic | Err c => Err c
-      | Ok (xs2, b3, p3) =>
-        match run_lends now xs2 (be_lend e) [] 0 b3 with
-        | Panic => Panic | Err c => Err c
-        | Ok (xs3, b4, p4) => Ok (mkR b4 gs es xs3, p1 ++ p2 ++ p3 ++ p4)
-        end
-      end
-    end
+    let '(xs1, b2, p2) := sub_step (run_exts 0 now (r_exts s) (be_ext e) b1) (r_exts s) b1 in
+    let '(xs2, b3, p3) := sub_step (run_exts 1 now xs1 (be_ext e) b2) xs1 b2 in
+    let '(xs3, b4, p4) := sub_step (run_lends now xs2 (be_lend e) [] 0 b3) xs2 b3 in
+    Ok (mkR b4 gs es xs3, p1 ++ p2 ++ p3 ++ p4)
+  end.
+
+(* which of the steps 2-4 kept their writes (the harness cannot see the step results - abci.go only logs
+   them - so this is for the runner's histogram only) *)
+Definition begin_steps_ok (now : Z) (e : benv) (s : rstate) : list bool :=
+  match run_epochs now (r_epochs s) (r_gauges s) (be_farm e) (be_recv e) (r_bal s) with
+  | Ok (_, _, b1, _) =>
+    let r2 := run_exts 0 now (r_exts s) (be_ext e) b1 in
+    let '(xs1, b2, _) := sub_step r2 (r_exts s) b1 in
+    let r3 := run_exts 1 now xs1 (be_ext e) b2 in
+    let '(xs2, b3, _) := sub_step r3 xs1 b2 in
+    [true; is_ok r2; is_ok r3; is_ok (run_lends now xs2 (be_lend e) [] 0 b3)]
+  | _ => [false; false; false; false]
   end.
 
 Inductive gop :=
@@ -496,40 +521,8 @@ Definition owed_active (d : Z) (gs : list gauge) (xs : list ext) : Z :=
   zsum (map (fun g => if (g_denom g =? d) && g_active g then g_rem g else 0) gs) +
   zsum (map (fun x => if (x_denom x =? d) && x_active x then x_avail x else 0) xs).
 
-(* known-finding class C19-F2: a swap-fee gauge whose accumulated fees were just distributed while
-   the transfer of the new fees fails (several pools on the pair and an oracle price missing): the
-   record is not saved *)
-Definition kf_C19_2 (calc : Z -> outcome pays) (recv : outcome Z) (g : gauge) : bool :=
-  g_swap g && (0 <? g_deposit g) && negb (is_ok recv) &&
-  match distribute calc (g_deposit g) (g_deposit g) with Ok (Some (tot, _, _)) => 0 <? tot | _ => false end.
-
-(* does a BeginBlocker meet a known-finding class: evaluated along the run, on each gauge / program
-   in the state in which it is processed, only for the epochs that are due *)
-Fixpoint kf2_pass (dur : Z) (gs : list gauge) (fe : list farm_env) (rv : list (outcome Z)) : bool :=
-  match gs with
-  | [] => false
-  | g :: rest => ((g_dur g =? dur) && kf_C19_2 (farm_calc (hd_farm fe)) (hd_recv rv) g) || kf2_pass dur rest (tl fe) (tl rv)
-  end.
-Fixpoint kf2_epochs (now : Z) (es : list epoch) (gs : list gauge) (fe : list farm_env) (rv : list (outcome Z)) (b : bank) : bool :=
-  match es with
-  | [] => false
-  | e :: rest =>
-      match snd (epoch_tick now e) with
-      | TTrigger => kf2_pass (e_dur e) gs fe rv ||
-                    match run_gauges now (e_dur e) gs fe rv b with
-                    | Ok (gs1, b1, _) => kf2_epochs now rest gs1 fe rv b1
-                    | _ => false
-                    end
-      | _ => kf2_epochs now rest gs fe rv b
-      end
-  end.
-Fixpoint kf3_pass (kind now : Z) (xs : list ext) (xe : list xenv) : bool :=
-  match xs with
-  | [] => false
-  | x :: rest => ((x_kind x =? kind) && kf_C19_3 now (hd_xenv xe) x) || kf3_pass kind now rest (tl xe)
-  end.
-Definition kf2_begin (now : Z) (e : benv) (s : rstate) : bool :=
-  kf2_epochs now (r_epochs s) (r_gauges s) (be_farm e) (be_recv e) (r_bal s).
+(* does a BeginBlocker meet the known-finding class C19-F4: evaluated along the run, on each lend
+   program in the state in which it is processed *)
 Fixpoint kf4_pass (now : Z) (xs : list ext) (le : list lenv) (arr : list (Z * Z)) (tot : Z) : bool :=
   match xs with
   | [] => false
@@ -542,32 +535,19 @@ Fixpoint kf4_pass (now : Z) (xs : list ext) (le : list lenv) (arr : list (Z * Z)
         end
       else kf4_pass now rest (tl le) arr tot
   end.
-Definition kf3_begin (now : Z) (e : benv) (s : rstate) : bool :=
-  match run_epochs now (r_epochs s) (r_gauges s) (be_farm e) (be_recv e) (r_bal s) with
-  | Ok (_, _, b1, _) =>
-      kf3_pass 0 now (r_exts s) (be_ext e) ||
-      match run_exts 0 now (r_exts s) (be_ext e) b1 with
-      | Ok (xs1, _, _) => kf3_pass 1 now xs1 (be_ext e)
-      | _ => false
-      end
-  | _ => false
-  end.
+(* a class met inside a step that fails as a whole has no effect (the step is rolled back): the
+   class predicate of a BeginBlocker counts the lend step only when it keeps its writes *)
 Definition kf4_begin (now : Z) (e : benv) (s : rstate) : bool :=
   match run_epochs now (r_epochs s) (r_gauges s) (be_farm e) (be_recv e) (r_bal s) with
   | Ok (_, _, b1, _) =>
-      match run_exts 0 now (r_exts s) (be_ext e) b1 with
-      | Ok (xs1, b2, _) =>
-          match run_exts 1 now xs1 (be_ext e) b2 with
-          | Ok (xs2, _, _) => kf4_pass now xs2 (be_lend e) [] 0
-          | _ => false
-          end
-      | _ => false
-      end
+      let '(xs1, b2, _) := sub_step (run_exts 0 now (r_exts s) (be_ext e) b1) (r_exts s) b1 in
+      let '(xs2, b3, _) := sub_step (run_exts 1 now xs1 (be_ext e) b2) xs1 b2 in
+      is_ok (run_lends now xs2 (be_lend e) [] 0 b3) && kf4_pass now xs2 (be_lend e) [] 0
   | _ => false
   end.
 Definition kf_step (s : rstate) (o : gop) : bool :=
   match o with
-  | Begin now e => kf2_begin now e s || kf3_begin now e s || kf4_begin now e s
+  | Begin now e => kf4_begin now e s
   | _ => false
   end.
 (* no step of the history meets a class *)
@@ -578,11 +558,19 @@ Fixpoint run_clean (s : rstate) (ops : list gop) : bool :=
   end.
 
 (* well-formed environment values: a coin handed over by the fee transfer is not negative
-   (sdk.Coin cannot hold a negative amount) *)
+   (sdk.Coin cannot hold a negative amount); the populations of the locker / vault programs are
+   consistent with their recorded totals (xenv_wf) *)
 Definition recv_wf (r : outcome Z) : bool := match r with Ok v => 0 <=? v | _ => true end.
 Definition op_wf (o : gop) : bool :=
   match o with
-  | Begin _ e => forallb recv_wf (be_recv e)
+  | Begin _ e => forallb recv_wf (be_recv e) && forallb xenv_wf (be_ext e)
+  | _ => true
+  end.
+
+(* histories without lend programs (the only program kind with a known-finding class left) *)
+Definition no_lend_op (o : gop) : bool :=
+  match o with
+  | ExtCreate kind _ _ _ _ _ _ _ => negb (kind =? 2)
   | _ => true
   end.
 
@@ -624,6 +612,8 @@ Definition holds_C19_custody (d bal : Z) (gs : list gauge) (xs : list ext) : boo
   forallb (fun x => negb (x_denom x =? d) || (0 <=? x_avail x)) xs && (owed_active d gs xs <=? bal).
 
 (* payout_i <= pro-rata share * (1 + 10^-12):  payout * total * 10^12 <= coins * s_i * (10^12 + 1)
-   (total, s_i scaled Decs, their ratio is scale-free; coins integer) *)
+   (total, s_i scaled Decs, their ratio is scale-free; coins integer); when nobody has an eligible
+   value (total = 0) there is no pro-rata share and nothing may be paid *)
 Definition holds_C19_share (coins total s payout : Z) : bool :=
-  (0 <=? payout) && (payout * total * 1000000000000 <=? coins * s * 1000000000001).
+  (0 <=? payout) &&
+  (if total <=? 0 then payout =? 0 else payout * total * 1000000000000 <=? coins * s * 1000000000001).
